@@ -234,6 +234,15 @@ fn gen_chaotic(r: &mut Rng, rs: &mut Rng, n_sources: usize, src_lens: &[usize]) 
             12 => {
                 if r.chance(1, 3) {
                     ops.push(Op::Finish)
+                } else if r.chance(1, 4) {
+                    // a call that must be rejected for an unrepresentable input, then life goes on
+                    if r.chance(1, 2) {
+                        ops.push(Op::StartFile { name: "n".repeat(65536 + r.below(10) as usize), o: Opts::default() });
+                    } else {
+                        ops.push(Op::SetComment { c: Hex(vec![b'c'; 65536 + r.below(10) as usize]) });
+                        ops.push(Op::Finish);
+                        ops.push(Op::SetComment { c: Hex(b"short".to_vec()) });
+                    }
                 }
             }
             _ => {
@@ -359,6 +368,16 @@ impl Scenario for Roundtrip {
                 }
                 for _ in 0..rounds {
                     ops.push(Op::Append);
+                    if r.chance(1, 12) {
+                        // a rejected call inside an append round must not cost an existing entry
+                        if r.chance(1, 2) {
+                            ops.push(Op::StartFile { name: "n".repeat(65536), o: Opts::default() });
+                        } else {
+                            ops.push(Op::SetComment { c: Hex(vec![b'c'; 65536]) });
+                            ops.push(Op::Finish);
+                            ops.push(Op::SetComment { c: Hex(b"short".to_vec()) });
+                        }
+                    }
                     if r.chance(4, 5) {
                         ops.extend(gen_program(&mut r, &cfg));
                     }
@@ -398,6 +417,11 @@ impl Scenario for Roundtrip {
                     if r.chance(1, 8) {
                         ops.retain(|o| matches!(o, Op::RawCopy { .. }));
                         ops.truncate(1);
+                    }
+                    if r.chance(1, 10) {
+                        ops.push(Op::SetComment { c: Hex(vec![b'c'; 65536]) });
+                        ops.push(Op::Finish);
+                        ops.push(Op::SetComment { c: Hex(b"short".to_vec()) });
                     }
                 }
                 ops
@@ -565,7 +589,13 @@ impl Scenario for Roundtrip {
                 0 => {
                     ops.insert(pos, Op::StartFile { name: "n".repeat(n), o: Opts::default() });
                 }
-                1 => ops.push(Op::SetComment { c: Hex(vec![b'c'; n]) }),
+                1 => {
+                    ops.push(Op::SetComment { c: Hex(vec![b'c'; n]) });
+                    if r.chance(1, 2) {
+                        ops.push(Op::Finish);
+                        ops.push(Op::SetComment { c: Hex(b"short".to_vec()) });
+                    }
+                }
                 _ => {
                     let mut ex = vec![];
                     while ex.len() < n {
@@ -752,6 +782,13 @@ impl Scenario for Roundtrip {
             }
         }
         if m.lenient {
+            // the frozen prefix is also read back through the crate's reader
+            let rc = ReadCfg { policy: c.read.clone(), bufs: c.bufs.clone(), max_content_entries: 64, parsed: None };
+            if let Err(e) = check_reader(&store_f, &m, &rc, ctx) {
+                if owns(&prop, &e.class) {
+                    return d12(ctx, &e.class, format!("{} [entries complete before the first failed call must survive it]", e.detail));
+                }
+            }
             return Verdict::Pass;
         }
         // C17: alignment arithmetic on the image
